@@ -33,5 +33,15 @@ Complete   == SameBag(Nodes(tree), bag)
 FindExact  == \A q \in Queries : SameBag(Find(tree, q[1], q[2]), Overlaps(bag, q[1], q[2]))
 RoundTrip  == IsNil(tree) \/ FromShape(PreOrder(tree))[1] = tree     \* the hook's encoding is lossless
 
+\* closed form of the overlap set of an arithmetic family (used by the trace spec for huge trees)
+BigLoM(a, w, qs) == Max2(0, (IF qs - w >= 0 THEN (qs - w) \div a ELSE -(((-(qs - w)) + a - 1) \div a)) + 1)
+BigHiM(n, a, qe) == Min2(n - 1, (IF qe <= 0 THEN -((-qe) \div a) ELSE (qe + a - 1) \div a) - 1)
+BigOverlapLemma ==
+    IsNil(tree) =>      \* evaluated once (initial state)
+    \A n \in 1..6, a \in 1..3, ww \in 1..4, qs \in -3..14, qe \in -3..15 :
+        qs < qe =>
+        {i \in 0..(n - 1) : Ovl(a * i, a * i + ww, qs, qe)}
+          = {i \in 0..(n - 1) : BigLoM(a, ww, qs) <= i /\ i <= BigHiM(n, a, qe)}
+
 EmitT == EmitOn => PrintT(<<"BEH", ToJson([ins |-> hist'])>>)
 =============================================================================
